@@ -88,6 +88,12 @@ func Workers() int {
 // space capped). onResult is called serially. A job whose worker dies or exceeds perJob is
 // reported with crash != "" (the worker is replaced and the remaining jobs continue).
 func RunJobs(job string, params []interface{}, perJob time.Duration, onResult func(idx int, res json.RawMessage, crash string)) {
+	RunJobsUntil(job, params, perJob, onResult, nil)
+}
+
+// RunJobsUntil is RunJobs with an early stop: once halt() reports true no further job is started
+// (jobs in flight finish or hit their watchdog).
+func RunJobsUntil(job string, params []interface{}, perJob time.Duration, onResult func(idx int, res json.RawMessage, crash string), halt func() bool) {
 	type item struct {
 		idx int
 		p   json.RawMessage
@@ -140,6 +146,14 @@ func RunJobs(job string, params []interface{}, perJob time.Duration, onResult fu
 			}
 			defer stop()
 			for it := range queue {
+				if halt != nil {
+					mu.Lock()
+					h := halt()
+					mu.Unlock()
+					if h {
+						continue // drain the queue without running
+					}
+				}
 				if cmd == nil {
 					if err := start(); err != nil {
 						mu.Lock()
